@@ -1,6 +1,7 @@
 import Gv.Proofs.BagRect3
 import Gv.Proofs.BagExt
 import Gv.Proofs.BagExt2
+import Gv.Proofs.BagExt3
 /-! No operation other than `Unalign` changes the kind (alignment / plain sequence set) of a container, and
 `Unalign` only turns an alignment into a plain sequence set (C01). -/
 namespace Gv.Proofs.BagAbs
@@ -66,6 +67,35 @@ theorem isAlign_stepOp (b : Bag) (op : Op) (hne : op ≠ .unalign) : (stepOp b o
   | unalign => exact absurd rfl hne
   | renameRe ok names => simp only [stepOp]; split <;> rfl
   | setAlpha a => exact (setAlphabet_fields a b).2.2.2.1
+  | revcompSeqs names => exact isAlign_reverseComplementSequences names b
+  | diffFirst =>
+    simp only [stepOp]
+    split
+    · rfl
+    · split
+      · rfl
+      · rename_i r hr; exact (sameShape_diffWithFirst hr).isAlign
+  | replaceMatch =>
+    simp only [stepOp]
+    split
+    · rfl
+    · split
+      · rfl
+      · rename_i r hr; exact (sameShape_replaceMatchChars hr).isAlign
+  | mask refseq start len mr nogap noref =>
+    simp only [stepOp]
+    split
+    · rfl
+    · split
+      · rfl
+      · rename_i r hr; exact (sameShape_maskBag hr).isAlign
+  | maskOcc refseq maxOcc mr =>
+    simp only [stepOp]
+    split
+    · rfl
+    · split
+      · rfl
+      · rename_i r hr; exact (sameShape_maskOccBag hr).isAlign
   | add n s => exact isAlign_addSeqAs _ b n s
   | ignore p => rfl
   | clear => rfl
